@@ -30,7 +30,7 @@ Theorem view_tighten_fail_iff : forall w mx b s ev x, view_ok w -> uvar w = Some
 Proof. exact ViewsProofs.view_tighten_fail_iff. Qed.
 Print Assumptions view_tighten_fail_iff.
 
-Theorem view_tighten_const : forall w mx b c, uvar w = None ->
+Theorem view_tighten_const : forall w mx b c, view_ok w -> uvar w = None ->
   (vset w mx b c = Some c /\ keeps w mx b 0 = true) \/ (vset w mx b c = None /\ keeps w mx b 0 = false).
 Proof. exact ViewsProofs.view_tighten_const. Qed.
 Print Assumptions view_tighten_const.
